@@ -139,6 +139,29 @@ func Run2(ns string, ignoreHost bool, batch []Dg, afterParse func(*gostatsd.Metr
 			return false
 		}
 	}
+	// Priming: the parser first handles an unrelated datagram whose metrics carry host: tags and other
+	// tags, and hands them back to its metric pool, so that the case's lines are served recycled metrics
+	// (whatever a recycled metric still remembers would show up in the case's result).
+	const primeN = 8
+	primeMsg := []byte("verif.prime:1|c|#host:leaked-host,z:leak\nverif.prime:2|g|#host:leaked-host\nverif.prime:3|ms|@0.5|#host:leaked-host,y:leak\nverif.prime:u|s|#host:leaked-host\n" +
+		"verif.prime:1|c|#host:leaked-host,z:leak\nverif.prime:2|g|#host:leaked-host\nverif.prime:3|ms|@0.5|#host:leaked-host,y:leak\nverif.prime:u|s|#host:leaked-host")
+	primed := make(chan struct{})
+	if !send([]*statsd.Datagram{{IP: "192.0.2.99", Msg: primeMsg, Timestamp: 1, DoneFunc: func() {}}}) ||
+		!send([]*statsd.Datagram{{IP: "sentinel", Msg: nil, Timestamp: 0, DoneFunc: func() { close(primed) }}}) {
+		return res
+	}
+	select {
+	case <-primed:
+	case p := <-panicCh:
+		res.Panic = p
+		return res
+	case <-timeout:
+		res.Hang = true
+		return res
+	}
+	capt.mu.Lock()
+	capt.Maps, capt.Events = nil, nil
+	capt.mu.Unlock()
 	if !send(dgs) || !send(sentinel) {
 		return res
 	}
@@ -205,7 +228,7 @@ func Run2(ns string, ignoreHost bool, batch []Dg, afterParse func(*gostatsd.Metr
 	res.Events = capt.Events[:nEvents:nEvents]
 	capt.mu.Unlock()
 	cs.mu.Lock()
-	res.MetricsReceived = cs.vals["parser.metrics_received"]
+	res.MetricsReceived = cs.vals["parser.metrics_received"] - primeN
 	res.EventsReceived = cs.vals["parser.events_received"]
 	res.BadLines = cs.vals["parser.bad_lines_seen"]
 	cs.mu.Unlock()
